@@ -121,7 +121,7 @@ func C09(run *hx.Run) {
 		{"delete", "spill-insert", 1024, false, false},
 		{"truncate", "update-many", 512, false, false},
 		{"persist", "spill-insert", 1024, false, true},
-		{"delete", "update-many", 1024, true, false}, // journal sector (4096) larger than the page
+		{"delete", "update-many", 1024, true, false},          // journal sector (4096) larger than the page
 		{"delete", "spill-insert+nosync", 1024, false, false}, // synchronous=off: journal header complete from the start, nRec = 0xffffffff
 		{"delete", "create-first", 1024, false, false},        // first transaction on a brand-new 0-byte file
 	}
